@@ -13,6 +13,7 @@ package siml
 // are checked on every read the engine makes; verify methods at the end.
 
 import (
+	"bytes"
 	"fmt"
 	"sort"
 	"strings"
@@ -573,6 +574,45 @@ func witnessBody(r *Run) {
 			}
 			r.Inject("wit." + classOf(name))
 			r.Fired("wit." + classOf(name))
+		}
+		// malformed principals: every account argument in turn replaced by Null,
+		// an empty string and a 19-byte string. The requirement is recomputed
+		// for the new arguments (Appendix A names accounts through them); a
+		// signer set that does not satisfy it — the engine's own or a
+		// stranger's — must leave no trace.
+		for i, a := range c.Args {
+			if verdict != nil {
+				break
+			}
+			if _, ok := argHash160(a); !ok {
+				continue
+			}
+			for vi, repl := range []any{nil, []byte{}, bytes.Repeat([]byte{7}, 19)} {
+				args := append([]any(nil), c.Args...)
+				args[i] = repl
+				cv := &CallInfo{Hash: c.Hash, Method: c.Method, Args: args}
+				rq := requirement(w, d, cv)
+				if !rq.known || rq.none {
+					continue
+				}
+				sc := CallScript(c.Hash, c.Method, args...)
+				for si, set := range [][]Signer{signers, {bare("stranger", stranger, transaction.Global)}} {
+					if rq.sat(set) {
+						continue
+					}
+					p := w.WhatIf(sc, set, 1)
+					r.Cell("C03.malformed-principal", fmt.Sprintf("%s/arg%d/%s", cell, i, []string{"null", "empty", "short"}[vi]))
+					r.Count("malformed_principal_calls_evaluated")
+					if e := effectOf(p); e != "" {
+						msg := fmt.Sprintf("%s with argument %d replaced by %s under %s signers %s: %s", cell, i, []string{"Null", "an empty string", "19 bytes"}[vi], []string{"the engine's", "a stranger's"}[si], signerNames(set), e)
+						verdict = func() { r.Violation("C03/effect-without-required-witness", "", "%s", msg) }
+						break
+					}
+				}
+			}
+		}
+		if verdict != nil {
+			return
 		}
 		if e0 != "" {
 			// positive control: exactly the required witnesses suffice
